@@ -41,7 +41,8 @@ type Profile struct {
 
 // generator-only composite kinds
 const (
-	GQuietNative = "g:quiet_native"
+	GQuietNative   = "g:quiet_native"
+	GRedelThenExit = "g:redelegate_then_exit"
 )
 
 const (
@@ -489,6 +490,56 @@ func (g *Gen) Step() {
 			}
 		}
 		x.Apply(Op{K: kind, D: d, V: v, W: (v + 1 + g.intn("w", nv-1)) % nv, Amt: amt})
+	case GRedelThenExit:
+		// fan-out from one position to two destinations, leave one destination (fully or
+		// partly), then slash the source while both redelegations are pending
+		if len(s.Dels) == 0 {
+			x.Apply(Op{K: KDelegate, D: g.del(), V: g.intn("v", nv), Denom: g.anyDenom("denom"), Amt: g.freshAmount("amt")})
+			return
+		}
+		d := s.Dels[g.intn("pos", len(s.Dels))]
+		if d.D < 0 || d.D == 100 || d.V < 0 {
+			return
+		}
+		bal := s.Reported(d)
+		if bal.Cmp(big.NewInt(4)) < 0 {
+			return
+		}
+		part := new(big.Int).Quo(bal, big.NewInt(int64(3+g.intn("div", 3))))
+		b := (d.V + 1 + g.intn("b", nv-1)) % nv
+		c := (d.V + 1 + g.intn("c", nv-1)) % nv
+		x.Apply(Op{K: KRedelegate, D: d.D, V: d.V, W: b, Denom: d.Denom, Amt: part.String()})
+		if g.pct("second-hop-later", 30) {
+			x.Apply(Op{K: KBlock, Dt: g.dt(), Fees: g.fees()})
+		}
+		x.Apply(Op{K: KRedelegate, D: d.D, V: d.V, W: c, Denom: d.Denom, Amt: part.String()})
+		// leave one of the destinations
+		leave := b
+		if g.pct("leave-second", 50) {
+			leave = c
+		}
+		s2 := x.Post()
+		if ld, ok := s2.FindDel(d.D, leave, d.Denom); ok {
+			amt := s2.Reported(ld)
+			if g.pct("partial-exit", 35) {
+				amt = new(big.Int).Quo(amt, big.NewInt(2))
+			}
+			if amt.Sign() > 0 {
+				if g.pct("exit-by-redelegate", 15) {
+					x.Apply(Op{K: KRedelegate, D: d.D, V: leave, W: (leave + 1) % nv, Denom: d.Denom, Amt: amt.String()})
+				} else {
+					x.Apply(Op{K: KUndelegate, D: d.D, V: leave, Denom: d.Denom, Amt: amt.String()})
+				}
+			}
+		}
+		if g.pct("slash-now", 80) {
+			if g.pct("hook", 60) {
+				x.Apply(Op{K: KSlashHook, V: d.V, Frac: g.frac()})
+			} else {
+				p := new(big.Int).Quo(s.Vals[d.V].Tokens.BigInt(), big.NewInt(1_000_000)).Int64()
+				x.Apply(Op{K: KSlash, V: d.V, Frac: g.frac(), Power: p, Age: int64(g.intn("age", 2))})
+			}
+		}
 	case GQuietNative:
 		// a native delegator removes a whole delegation (or delegates) and nothing else
 		// happens in that block; a quiet block follows
